@@ -25,6 +25,17 @@ def plan(ctx):
         ('simultaneous_initiation', {}, [['acquire', 'A', 80], ['acquire', 'B', 0], D, D, D, D, D, D, D, D]),
         ('delete_retransmitted', {}, hs + [['delete_ike', 'A'], ['dup', 0], D, D, D, ['replay', 4], ['replay', 5]]),
     ]
+    # corrupted copies of earlier datagrams (incl. ones still in flight) between the steps of rekey scenarios
+    rng = random.Random(ctx.rng.getrandbits(32))
+    for name in ('rekey_ike', 'rekey_ike_from_responder', 'simultaneous_rekey_ike', 'rekey_ike_vs_delete_child',
+                 'rekey_child', 'delete_ike'):
+        acts = []
+        for a in scripted(name):
+            acts.append(a)
+            if len(acts) > 5:
+                acts.append(['corrupt', rng.randrange(64), 28 + rng.randrange(200), rng.randrange(8)])
+                acts.append(['corrupt', rng.randrange(64), rng.randrange(28), rng.randrange(8)])
+        extra.append((name + '+corrupt', {}, acts))
     return runs + extra
 
 
@@ -37,10 +48,28 @@ class TableOracle:
         self.ctx = ctx
         self.rng = rng
         self.fails = []
+        self.succ, self.listed, self.keep = {}, {}, []
 
     def __call__(self, pair, action, sent):
         for ep in (pair.A, pair.B):
             t = ep.controller.ike_sas
+            # an IKE_SA created by a rekey is registered when (and only when) the rekey has completed
+            known = self.succ.setdefault(ep.name, {})
+            listed = self.listed.setdefault(ep.name, set())
+            for x in t:
+                if id(x) in known and id(x) not in listed:
+                    old = known[id(x)]
+                    if int(old.state) not in (20, 16, 21) or x.peer_crypto is None:
+                        self.fail(pair, 'table:successor-registered-before-rekey-completed',
+                                  f'{ep.name}: the IKE_SA created by a rekey was listed while its predecessor is in state '
+                                  f'{int(old.state)} (successor state {int(x.state)}, keys: {x.peer_crypto is not None}) '
+                                  f'after {action}')
+                        return
+                listed.add(id(x))
+            for x in t:
+                if x.new_ike_sa is not None:
+                    known[id(x.new_ike_sa)] = x
+                    self.keep.append(x.new_ike_sa)
             if len({id(x) for x in t}) != len(t):
                 self.fail(pair, 'table:duplicate-entry', f'{ep.name}: an IKE_SA is listed twice: '
                           f'{[x.my_spi.hex() for x in t]} after {action}')
@@ -54,6 +83,13 @@ class TableOracle:
         # unknown SPIs and swapped SPIs change nothing
         ep = self.rng.choice((pair.A, pair.B))
         peer = pair.B if ep is pair.A else pair.A
+        # every loop iteration also runs the timers: let them settle at the current clock first
+        for _ in range(8):
+            b0 = ep.snapshot()
+            out0 = ep.tick()
+            pair._emit(out0)
+            if not out0 and ep.snapshot() == b0:
+                break
         for sa in list(ep.controller.ike_sas)[:2] or [None]:
             probes = []
             rnd = bytes(self.rng.getrandbits(8) for _ in range(8))
@@ -67,6 +103,16 @@ class TableOracle:
                 hdr_spis = (mine + theirs) if sa.is_initiator else (theirs + mine)
                 if theirs != mine and not any(bytes(x.my_spi) == theirs for x in ep.controller.ike_sas):
                     probes.append(hdr_spis + bytes([0, 0x20, 37, i_flag]) + struct.pack('>LL', 0, 28))
+            corrupted = set()
+            if sa is not None:
+                mine = bytes(sa.my_spi)
+                for (s_, d_, dat) in reversed(pair.history):
+                    if pair.sim.owner_of(d_) is ep and dat[18] != 34 and mine in (dat[0:8], dat[8:16]):
+                        pos = 28 + self.rng.randrange(max(1, len(dat) - 28))
+                        bad = dat[:pos] + bytes([dat[pos] ^ 0x40]) + dat[pos + 1:]
+                        probes.append(bad)
+                        corrupted.add(bad)
+                        break
             for data in probes:
                 before = ep.snapshot()
                 n = ep.kernel.n
@@ -82,6 +128,12 @@ class TableOracle:
                     x.pop('retransmit_at', None), x.pop('retransmissions', None), x.pop('request_data', None)
                     x.pop('state', None)   # timers run in every loop iteration; compare what a datagram could move
                     x.pop('start_dpd_at', None), x.pop('my_msg_id', None)
+                if data in corrupted and [x['cid'] for x in before] != [x['cid'] for x in after]:
+                    self.fail(pair, 'table:corrupted-datagram-changed-table',
+                              f'a corrupted copy of an authentic datagram ({data[:28].hex()}) changed the table of '
+                              f'{ep.name}: {[x["cid"] for x in before]} -> {[x["cid"] for x in after]} (states before '
+                              f'{[int(s_.state) for s_ in ep.controller.ike_sas]})')
+                    return
                 if [x['cid'] for x in before] != [x['cid'] for x in after] and \
                         not set(x['cid'] for x in after) < set(x['cid'] for x in before):
                     self.fail(pair, 'routing:unknown-spi-created-state',
@@ -170,9 +222,10 @@ def oracle(ctx, deep):
     runs = plan(ctx)
     if not deep:
         keep = ('handshake', 'rekey_ike', 'rekey_retransmitted', 'rekey_dup_everything', 'simultaneous_initiation',
-                'delete_retransmitted', 'simultaneous_rekey_ike', 'delete_ike', 'lost_everything')
+                'delete_retransmitted', 'simultaneous_rekey_ike', 'delete_ike', 'lost_everything',
+                'rekey_ike+corrupt', 'simultaneous_rekey_ike+corrupt', 'rekey_ike_from_responder+corrupt')
         runs = [r for r in runs if r[0].split('/')[0] in keep or r[0].startswith('walk')]
-        runs = [r for r in runs if not r[0].endswith(('conf1', 'conf2'))][:18]
+        runs = [r for r in runs if not r[0].endswith(('conf1', 'conf2'))][:24]
     fails, _ = run(ctx, runs, with_oracle=True, record=False)
     return fails
 
